@@ -1318,12 +1318,18 @@ rrul_fill_mly(echs_instant_t *restrict tgt, size_t nti, rrulsp_t rr)
 	for (res = 0UL, tries = 64U * 12U; res < nti && y < 2100U && --tries;
 	     ({
 		     do {
-			     if ((m += rr->inter) > 12) {
-				     m--;
-				     y += m / 12;
-				     m %= 12;
-				     m++;
+			     /* INTERVAL can be anything up to UINT_MAX,
+			      * don't let the month counter overflow */
+			     const uint_fast64_t nm =
+				     (uint_fast64_t)m + rr->inter - 1U;
+
+			     if (UNLIKELY(nm / 12U >= 2100U)) {
+				     /* beyond everything we can handle */
+				     y = 2100U;
+				     break;
 			     }
+			     y += nm / 12U;
+			     m = (int)(nm % 12U) + 1;
 		     } while (bui31_has_bits_p(rr->mon) &&
 			      !bui31_has_bit_p(rr->mon, m));
 	     })) {
